@@ -46,6 +46,24 @@ theorem doSync_inv (prog : Prog) (t : Nat) (s : St) (h : Inv s) :
   unfold doSync
   exact execExt_inv _ _ ⟨h.sorted, h.future, h.period, h.epoch⟩
 
+theorem doSync_inv_frame (prog : Prog) (t : Nat) (s : St) :
+    (doSync prog t s).1.terminated = s.terminated ∧ (doSync prog t s).1.tol = s.tol := by
+  unfold doSync
+  generalize hs0 : ({ s with syncCalls := s.syncCalls + 1, log := Obs.sync t :: s.log } : St) = s0
+  have h0 : s0.terminated = s.terminated ∧ s0.tol = s.tol := by subst hs0; exact ⟨rfl, rfl⟩
+  generalize prog.ext s.syncCalls = rs
+  clear hs0
+  induction rs generalizing s0 with
+  | nil => exact h0
+  | cons r rs ih =>
+    simp only [execExt]
+    apply ih
+    have : (sched s0 r).1.terminated = s0.terminated ∧ (sched s0 r).1.tol = s0.tol := by
+      unfold sched; split
+      · exact ⟨rfl, rfl⟩
+      · split <;> exact ⟨rfl, rfl⟩
+    exact ⟨this.1.trans h0.1, this.2.trans h0.2⟩
+
 theorem all_future_of_head {t : Nat} {q : List Entry} (hs : Sorted q) (hge : ∀ e ∈ q, t ≤ e.time)
     (hh : ∀ e ∈ q.head?, e.time ≠ t) : ∀ e ∈ q, t < e.time := by
   intro e he
